@@ -77,5 +77,5 @@ func lognor(s *slip.Scope, a1, a2 slip.Object, depth int) (result slip.Object) {
 func bigLognor(b1, b2 *big.Int) slip.Object {
 	var bi big.Int
 	bi.Or(b1, b2)
-	return complement((*slip.Bignum)(&bi)).(*slip.Bignum)
+	return reduceInteger(bi.Not(&bi))
 }
